@@ -262,7 +262,7 @@ func (i *Inner) Hold(id string) int64 { return childDo(id) }
 
 func concText(s *Session) string {
 	var sb strings.Builder
-	sb.WriteString("rule \"c\" \"d\" salience 1\nbegin\n")
+	sb.WriteString("rule \"c\" \"d\" salience 1\nbegin\n  loc = mkloc()\n")
 	n := 0
 	var seen []string
 	for bi, b := range s.Blocks {
@@ -285,6 +285,11 @@ func concText(s *Session) string {
 			case "asgI":
 				fmt.Fprintf(&sb, "%s  obj.F%d = hold(\"%s\")\n", ind, n, c.ID)
 				seen = append(seen, fmt.Sprintf("see(\"%s\", obj.F%d)", c.ID, n))
+			case "methL":
+				fmt.Fprintf(&sb, "%s  loc.Hold(\"%s\")\n", ind, c.ID)
+			case "asgML":
+				fmt.Fprintf(&sb, "%s  v%d = loc.Hold(\"%s\")\n", ind, n, c.ID)
+				seen = append(seen, fmt.Sprintf("see(\"%s\", v%d)", c.ID, n))
 			case "func":
 				fmt.Fprintf(&sb, "%s  hold(\"%s\")\n", ind, c.ID)
 			case "meth":
@@ -328,6 +333,7 @@ func runConc(s *Session, quiet time.Duration, seed int64, tmo time.Duration) ([]
 	dc.Add("after", func(b int64) { o.Emit(obs.Event{"ev": "after", "b": b}) })
 	dc.Add("see", func(c string, v int64) { o.Emit(obs.Event{"ev": "see", "c": c, "val": v}) })
 	dc.Add("obj", &Obj{In: &Inner{}})
+	dc.Add("mkloc", func() *Obj { return &Obj{In: &Inner{}} }) // an object that lives in a rule local
 	rb := builder.NewRuleBuilder(dc)
 	if err := rb.BuildRuleFromString(text); err != nil {
 		fmt.Fprintf(os.Stderr, "driver: session %d: compile failed: %v\n%s\n", s.ID, err, text)
